@@ -1,5 +1,7 @@
 //! vh: model-based history runner for recatek/gecs (engine H and B of /verif/DESIGN.md).
 
+pub mod borrowm;
+pub mod c10;
 pub mod comps;
 pub mod conv;
 pub mod driver;
